@@ -21,7 +21,7 @@ class TypeSpec:
         return f"T({self.base},{self.dims},{self.elem},{self.cls},{self.const})"
 
 
-_ARR = re.compile(r"^(int|real|bool)\[(.*)\]$")
+_ARR = re.compile(r"^(int|real|bool|nreal)\[(.*)\]$")
 _LIST = re.compile(r"^list\[(.*)\]$")
 
 
@@ -108,9 +108,12 @@ def static_matches(ts: TypeSpec, v, repo=None, exact=False) -> bool:
     if ts.base == "arr":
         if not isinstance(v, Arr) or v.rank != len(ts.dims):
             return False
-        if ts.elem == "int" and v.kind == "real":
+        if ts.elem == "nreal":
+            if v.kind != "real":
+                return False
+        elif ts.elem == "int" and v.kind == "real":
             return False
-        if exact and ts.elem != v.kind:
+        if exact and ts.elem != v.kind and not (ts.elem == "nreal" and v.kind == "real"):
             return False
         if ts.elem == "bool" and v.kind != "bool":
             return False
